@@ -46,6 +46,7 @@ def make(rng):
         if rng.random() < 0.3:       # an application that calls close() again at every later event (each call after the first is a no-op)
             sc.reactions = {i: [('close', 1000, ('b', b'bye'))] for i in range(close_at, close_at + 60)}
     sc.zero = rng.random() < 0.3     # disabled timeouts given as 0 rather than None
+    sc.tdiv = rng.choice([1, 4, 8])  # the clock runs in whole, quarter or eighth seconds (fractional times; exact in binary floating point)
     return sc
 
 
@@ -167,7 +168,7 @@ def explore(res, tier, seed, model_ok=True):
     gencheck.run(res, 'C15', tier, seed, model_ok)
     rng = random.Random(seed)
     n = 500 if tier == 'quick' else 10000
-    res.rule = ('%d histories on the virtual clock: poll in {1,2,3,5}, ping_rate in {0,1,2,3,4,7,10}, ping_timeout in {None,2,3,5,8,12}, close_timeout in {None,1,3,4,9,30}; 3-30 loop cycles with timeouts and arrivals (Pong, data, Ping) at 0..poll, '
+    res.rule = ('%d histories on the virtual clock (unit 1, 1/4 or 1/8 s: fractional poll/rate/timeouts and arrival times): poll in {1,2,3,5}, ping_rate in {0,1,2,3,4,7,10}, ping_timeout in {None,2,3,5,8,12}, close_timeout in {None,1,3,4,9,30}; 3-30 loop cycles with timeouts and arrivals (Pong, data, Ping) at 0..poll, '
                 'application close() at a random event (in 30%% of those: again at every later event), disabled timeouts given as None or as 0, server Close reply after a random delay; oracle: the inequalities of the property evaluated on the real timestamps; non-trivial = a timer other than Poll fired; distinct by operation line') % n
     scs = [make(rng) for _ in range(n)]
     pairs = coreutil.run_pairs(scs, model_ok)
